@@ -412,3 +412,91 @@ class SegmentReader(object):
             out += payload
             self.buf = self.buf[10 + ln:]
         return out
+
+
+# ------------------------------------------------------------------ v5 segments on a connection that negotiated lz4
+# (added for C06/C47; nothing above depends on it)
+# header: 5 bytes little endian = 17 bits payload length | 17 bits uncompressed length | 1 bit self-contained |
+# 5 bits padding, then CRC24 of those 5 bytes (3 bytes LE); uncompressed length 0 = "payload left uncompressed".
+def segment_lz4(payload, self_contained=True, compress_block=None):
+    """One segment as a node writes it when lz4 was negotiated.  compress_block(bytes) -> raw LZ4 block
+    (no size prefix); None, or a block that is not smaller than the payload, leaves the payload
+    uncompressed (uncompressed-length field 0), which is what Cassandra does."""
+    assert len(payload) <= MAX_PAYLOAD
+    enc, ulen = payload, 0
+    if compress_block is not None:
+        blk = compress_block(payload)
+        if len(blk) < len(payload):
+            enc, ulen = blk, len(payload)
+    h = len(enc) | (ulen << 17) | ((1 if self_contained else 0) << 34)
+    hb = h.to_bytes(5, 'little')
+    return hb + crc24(hb).to_bytes(3, 'little') + enc + crc32(enc).to_bytes(4, 'little')
+
+
+def segments_for_lz4(frame_bytes, compress_block=None):
+    if len(frame_bytes) <= MAX_PAYLOAD:
+        return segment_lz4(frame_bytes, True, compress_block)
+    out = b''
+    for i in range(0, len(frame_bytes), MAX_PAYLOAD):
+        out += segment_lz4(frame_bytes[i:i + MAX_PAYLOAD], False, compress_block)
+    return out
+
+
+class SegmentLog(object):
+    """Incremental reader of client->server v5 segments, either header form; keeps a record of every
+    segment: (payload_length_on_wire, uncompressed_length_field or None, self_contained, payload)."""
+    def __init__(self, compressed=False, decompress_block=None):
+        self.buf = b''
+        self.compressed = compressed
+        self.decompress_block = decompress_block     # fn(block, uncompressed_size) -> bytes
+        self.segments = []
+
+    def feed(self, data):
+        self.buf += data
+        out = b''
+        hl = 5 if self.compressed else 3
+        while len(self.buf) >= hl + 3:
+            hb = self.buf[:hl]
+            if crc24(hb) != int.from_bytes(self.buf[hl:hl + 3], 'little'):
+                raise ValueError('client segment header crc mismatch')
+            h = int.from_bytes(hb, 'little')
+            ln = h & 0x1ffff
+            if self.compressed:
+                ulen = (h >> 17) & 0x1ffff
+                sc = bool((h >> 34) & 1)
+                pad = h >> 35
+            else:
+                ulen = None
+                sc = bool((h >> 17) & 1)
+                pad = h >> 18
+            if pad:
+                raise ValueError('client segment header padding bits set')
+            if len(self.buf) < hl + 3 + ln + 4:
+                break
+            enc = self.buf[hl + 3:hl + 3 + ln]
+            if crc32(enc) != int.from_bytes(self.buf[hl + 3 + ln:hl + 7 + ln], 'little'):
+                raise ValueError('client segment payload crc mismatch')
+            payload = enc
+            if self.compressed and ulen:
+                payload = self.decompress_block(enc, ulen)
+                if len(payload) != ulen:
+                    raise ValueError('client segment: uncompressed length field wrong')
+            self.segments.append((ln, ulen, sc, payload))
+            out += payload
+            self.buf = self.buf[hl + 7 + ln:]
+        return out
+
+
+def result_rows_cp(columns, rows, v, seq, last, ks='ks', table='t'):
+    """RESULT/Rows page of a DSE continuous-paging session: metadata flag 0x40000000 (continuous paging,
+    followed by <seq:int>), 0x80000000 (last page)."""
+    flags = 0x0001 | 0x40000000 | (0x80000000 if last else 0)
+    b = w_i32(2) + struct.pack('>I', flags) + w_i32(len(columns)) + w_i32(seq)
+    b += w_string(ks) + w_string(table)
+    for name, t in columns:
+        b += w_string(name) + type_option(t)
+    b += w_i32(len(rows))
+    for row in rows:
+        for (name, t), x in zip(columns, row):
+            b += w_bytes(enc_value(t, x, v))
+    return b
